@@ -856,3 +856,64 @@ Section MBridge.
     - rewrite (mint_raise (src_knot k W) [] c0 x Hcl (enc_override override) PNone cb e Hmapper). apply refines_refl.
   Qed.
 End MBridge.
+
+(* ------------------------------------------------------------------ the side condition [mapped_ok] *)
+
+(* for an instance of scalar fields it is what C07_agg_is_chain yields: every populated attribute's entry in the
+   aggregated mapper is mval_of (rename chain), i.e. a key or DoNotSerialize *)
+Lemma mapped_ok_flat am x :
+  (forall k v, In (k, v) x -> (exists z, v = IScal z) /\ exists o, alist_get am k = Some (mval_of o)) ->
+  mapped_ok (Some (Sub am)) (IStruct x) = true.
+Proof.
+  induction x as [|[k v] t IH]; intro H; [reflexivity|].
+  change (mapped_ok (Some (Sub am)) (IStruct ((k, v) :: t)))
+    with (entry_plain am k && mapped_ok (alist_get am (k ++ suffix)) v && mapped_ok (Some (Sub am)) (IStruct t)).
+  destruct (H k v (or_introl eq_refl)) as [[z ->] [o Ho]].
+  unfold entry_plain. rewrite Ho. rewrite IH by (intros k' v' Hin; apply (H k' v'); right; exact Hin).
+  destruct o; reflexivity.
+Qed.
+
+(* ------------------------------------------------------------------ non-vacuity *)
+
+(* class Inner: a_b, c (mapper: c -> "cee");  class Outer: first_name, inner : Inner, items : Array[Inner], secret
+   with the mapper {first_name: "fn", secret: DoNotSerialize, "inner._mapper": {a_b: "AB"}}, camel_case_convert=True *)
+Definition s (x : string) : pystr := s2p x.
+Definition m_Inner : classdef := Class [(s "a_b", None); (s "c", None)] [MDict [(s "c", Key (s "cee"))]].
+Definition m_Outer : classdef :=
+  Class [(s "first_name", None); (s "inner", Some (KRef, m_Inner)); (s "items", Some (KArr, m_Inner)); (s "secret", None);
+         (s "plain_one", None)]
+        [MDict [(s "first_name", Key (s "fn")); (s "secret", DoNot); (s "inner._mapper", Sub [(s "a_b", Key (s "AB"))])]].
+Definition m_inner1 : list (pystr * ival) := [(s "a_b", IScal 1); (s "c", IScal 2)].
+Definition m_x : list (pystr * ival) :=
+  [(s "first_name", IScal 7); (s "inner", IStruct m_inner1); (s "items", IList [IStruct m_inner1; IStruct [(s "c", IScal 3)]]);
+   (s "secret", IScal 9); (s "plain_one", IScal 5)].
+Definition m_agg (flag : bool) : pyval -> pyval -> pyval -> res pyval :=
+  fun _ _ _ => MS.enc_res (aggregate true m_Outer None flag).
+
+Example src_mapped_nonvacuous :
+  class_names_ok m_Outer = true /\ styped m_Outer m_x = true /\
+  (forall am, aggregate true m_Outer None true = Ok am -> mapped_ok (Some (Sub am)) (IStruct m_x) = true) /\
+  (* the model's document: renamed keys, camel case after the mapper, the nested mapper, secret dropped *)
+  Mappers.serialize m_Outer None true m_x =
+    Ok (DDict [(s "fn", DScal 7);
+               (s "inner", DDict [(s "AB", DScal 1); (s "cee", DScal 2)]);
+               (s "items", DList [DDict [(s "aB", DScal 1); (s "cee", DScal 2)]; DDict [(s "cee", DScal 3)]]);
+               (s "plainOne", DScal 5)]) /\
+  (* the generated serialize computes exactly it *)
+  r_serialize (src_knot 12 (map_world m_Outer (m_agg true) (fun _ => []))) (enc_struct m_x m_Outer []) PNone PNone (PBool true)
+    = enc_dres (Mappers.serialize m_Outer None true m_x) /\
+  (* ... and without camel case, with compact=True *)
+  r_serialize (src_knot 12 (map_world m_Outer (m_agg false) (fun _ => []))) (enc_struct m_x m_Outer []) PNone (PBool true) (PBool false)
+    = enc_dres (Mappers.serialize m_Outer None false m_x).
+Proof.
+  repeat split; try (vm_compute; reflexivity).
+  intros am H. vm_compute in H. inversion H; subst am. vm_compute. reflexivity.
+Qed.
+
+Print Assumptions src_camel.
+Print Assumptions mval_body.
+Print Assumptions mint_body.
+Print Assumptions mknot_ok.
+Print Assumptions src_serialize_mapped.
+Print Assumptions mapped_ok_flat.
+Print Assumptions src_mapped_nonvacuous.
